@@ -10,7 +10,7 @@
    coin received, fee forwarded to the pair's fee collector, fills. *)
 From Comdex Require Import Lib.Base Lib.DecArith Model.Liquidity Model.LiquidityWitness
   Proofs.LiquidityProofs Proofs.LiquiditySweep Proofs.LiquidityProofs2 Proofs.LiquidityEffects
-  Proofs.LiquidityEscrow Proofs.LiquidityReach Proofs.LiquidityOrderThms.
+  Proofs.LiquidityEscrow Proofs.LiquidityReach Proofs.LiquidityMMCancel Proofs.LiquidityOrderThms Proofs.LiquidityMM.
 
 (* what was taken from the orderer at placement = offer coin + swap-fee reserve, where the reserve
    is floor(offer * rate) (0 for market-making orders) - for every order stored in any reachable state *)
@@ -152,6 +152,36 @@ Theorem c07_mm_replace : forall s m now s',
     mm_tail s1 m pr bt st now = Ok s'.
 Proof. exact mm_replace_cancels. Qed.
 Print Assumptions c07_mm_replace.
+
+(* the owner's index is complete - every LIVE market-making order of an owner in a pair is listed in it,
+   in every reachable state - hence MsgCancelMMOrder cancels EVERY previously placed live market-making
+   order of that owner in that pair, for every combination of app id and pair id ... *)
+Theorem c07_mm_cancel_complete : forall setup ops app owner pair s' e, hist_ok setup ops ->
+  let s := reach setup ops in
+  cancel_mm s app owner pair = Ok s' ->
+  In e (orders s) -> o_type (fst e) = 3 -> is_live (o_status (fst e)) = true ->
+  o_app (fst e) = app -> o_owner (fst e) = owner -> o_pair (fst e) = pair ->
+  nonlive_at (ekey e) s'.
+Proof. exact mm_cancel_complete. Qed.
+Print Assumptions c07_mm_cancel_complete.
+
+(* ... and so does a replacing MsgMMOrder: in the state after the new orders were placed, every
+   previously placed live market-making order of that owner in that pair is no longer live *)
+Theorem c07_mm_replace_complete : forall setup ops m now s' e, hist_ok setup ops ->
+  let s := reach setup ops in
+  mm_order s m now = Ok s' ->
+  In e (orders s) -> o_type (fst e) = 3 -> is_live (o_status (fst e)) = true ->
+  o_app (fst e) = mm_app m -> o_owner (fst e) = mm_owner m -> o_pair (fst e) = mm_pair m ->
+  nonlive_at (ekey e) s'.
+Proof. exact mm_replace_complete. Qed.
+Print Assumptions c07_mm_replace_complete.
+
+Example c07_mm_complete_example :
+  hist_ok (w_setup 2) w_mm_ops /\ length (orders (reach (w_setup 2) w_mm_ops)) = 10%nat /\
+  forallb (fun e => (o_type (fst e) =? 3) && is_live (o_status (fst e)) && (o_app (fst e) =? 2) && (o_owner (fst e) =? 50)
+                    && (o_pair (fst e) =? 1)) (orders (reach (w_setup 2) w_mm_ops)) = true /\
+  is_ok (cancel_mm (reach (w_setup 2) w_mm_ops) 2 50 1) = true.
+Proof. split; [split; repeat constructor|]. split; [vm_compute; reflexivity|]. split; vm_compute; reflexivity. Qed.
 
 (* the witness of C07-F1 (fixed by the patch fixes/C07-F1): app 2 / pair 1, ten market-making sell
    ticks of 300, MsgCancelMMOrder in the next batch.  Before the repair the lookup used (pair id, app id):
